@@ -253,7 +253,7 @@ func exprReductions(e *lexm.Expr) []*lexm.Expr {
 				out = append(out, &n)
 			}
 		}
-	case "opt", "star", "plus", "starng", "plusng":
+	case "opt", "star", "plus", "starng", "plusng", "group":
 		out = append(out, e.Kids[0])
 	case "lit":
 		rs := []rune(e.Lit)
